@@ -17,6 +17,7 @@
 //!            R <a> | RF <a>   let a's parked pre_start return Ok / Err; settle
 //!            SS <a> <mod> <res> <mul> <add>   spawn_instant actor a whose pre_start subscribes
 //!                             ITSELF (same converter syntax) and then parks; settle
+//!            D                drop the port (every handle of it); no settle. Only T/K/R/RF/H/G/O may follow
 //! Receivers: an actor with an R/RF op is spawned with `spawn_instant` before the first
 //! operation, its pre_start parked (status Starting) until R/RF; an actor with an SS op is
 //! spawned by that op; every other actor is spawned and Running before the first operation.
@@ -169,7 +170,7 @@ async fn run_scenario(line: &str) -> String {
         .map(|o| o.split_whitespace().collect::<Vec<_>>())
         .filter(|w| !w.is_empty())
         .collect();
-    let port: Arc<OutputPort<u64>> = Arc::new(OutputPort::default());
+    let mut port_slot: Option<Arc<OutputPort<u64>>> = Some(Arc::new(OutputPort::default()));
     let mut parked: BTreeSet<u64> = BTreeSet::new();
     let mut selfkind: BTreeSet<u64> = BTreeSet::new();
     for w in &ops {
@@ -216,9 +217,11 @@ async fn run_scenario(line: &str) -> String {
     let mut subs: Vec<u64> = Vec::new(); // subscription id -> actor
     for w in &ops {
         match w[0] {
-            "P" => port.send(u(w[1])),
+            "D" => drop(port_slot.take()),
+            "P" => port_slot.as_ref().expect("P after D").send(u(w[1])),
             "B" => {
                 let from = u(w[1]);
+                let port = port_slot.as_ref().expect("B after D");
                 for k in 0..u(w[2]) {
                     port.send(from + k);
                 }
@@ -228,7 +231,7 @@ async fn run_scenario(line: &str) -> String {
                 let (md, rs, mul, add) = (u(w[2]), u(w[3]), u(w[4]), u(w[5]));
                 let sid = subs.len() as u64;
                 subs.push(a);
-                port.subscribe(actors[&a].actor.clone().expect("S before SS"), move |k: u64| {
+                port_slot.as_ref().expect("S after D").subscribe(actors[&a].actor.clone().expect("S before SS"), move |k: u64| {
                     if md != 0 && k % md == rs {
                         Some(Item(sid, k * mul + add))
                     } else {
@@ -252,7 +255,7 @@ async fn run_scenario(line: &str) -> String {
                 let (r, _h) = ractor::ActorRuntime::<SubActor>::spawn_instant(
                     None,
                     handler,
-                    StartArgs { park: Some(e.start.clone()), selfsub: Some((port.clone(), sid, conv)) },
+                    StartArgs { park: Some(e.start.clone()), selfsub: Some((port_slot.as_ref().expect("SS after D").clone(), sid, conv)) },
                 )
                 .expect("spawn_instant");
                 e.actor = Some(r);
@@ -293,7 +296,7 @@ async fn run_scenario(line: &str) -> String {
             actor.kill();
         }
     }
-    drop(port);
+    drop(port_slot);
     settle().await;
     coq_list(&out)
 }
